@@ -144,12 +144,18 @@ class Ideal:
 class TreeSpec(SeqSpec):
     component = "tree"
     imports = "From Juniper Require Import Common.Base Tree.Bound Tree.BTree Tree.Cursor Tree.SMap Tree.AIter Tree.Hist Tree.Corr."
-    informational = {"shape"}
+    informational = {"shape", "cost"}
+    preamble = ("Definition strip_cost (c : case) : case := let '(m, ops, obs) := c in\n"
+                "  let keep := filter (fun p => negb (is_cost (fst p))) (combine ops obs) in (m, map fst keep, map snd keep).\n"
+                "Definition check_M_nocost (c : case) : bool := check_M (strip_cost c).\n"
+                "Definition check_cost (c : case) : bool := check_M c.")
 
     def __init__(self, flavour):
         """flavour: 'c01' sequential calls, 'c02' live iterators under mutation, 'c03' adversarial fills/drains"""
         self.flavour = flavour
-        self.checkers = {"M": "check_M", "S": "check_S", "shape": "check_shape"}
+        # M: the B-tree model, exact, on everything observable through the API (comparator-call counts are
+        # compared only informationally: a different but valid search inside a node is not a violation)
+        self.checkers = {"M": "check_M_nocost", "S": "check_S", "shape": "check_shape", "cost": "check_cost"}
 
     # ------------------------------------------------------------ generators
     def rbound(self, rng, K):
